@@ -376,6 +376,17 @@ def dry_run_slice() -> Tuple[int, List[Violation]]:
         if not ok:
             viols.append(Violation("dry-run-disagrees-with-plan", f"dry-run output {res.out[-400:]!r} (exit {res.code}) vs plan of {len(want)} runs",
                                    {"kind": "dry", "spec": rs}))
+        # the cap given on the command line, at and around the plan's size and at 0: exceeded <=> refused, whatever else is asked for
+        for cap in sorted({0, 1, max(len(want) - 1, 0), len(want), len(want) + 1}):
+            for extra in ([], ["--run-space-dry-run"], ["--dry-run"]):
+                n += 1
+                res = cli.run_cli(["run", yp, "-q", "--run-space-max-runs", str(cap), *extra])
+                refused = "max_runs" in (res.out + res.err) or "exceed" in (res.out + res.err).lower()
+                should = len(want) > cap
+                if should != (res.code != 0 and refused) and not (not should and res.code == 0):
+                    viols.append(Violation("command-line-cap-not-enforced" if should else "command-line-cap-refuses-plan-within-cap",
+                                           f"--run-space-max-runs {cap} {' '.join(extra)} on a plan of {len(want)} runs: exit {res.code}, output {(res.out + res.err)[-200:]!r}",
+                                           {"kind": "dry", "spec": rs}))
     return n, viols
 
 
